@@ -3453,8 +3453,13 @@ fn array_exotic_define_own_property(
         // 2. If P is "length", then
         PropertyKey::String(s) if s == &StaticJsStrings::LENGTH => {
             // a. Return ? ArraySetLength(A, Desc).
+            let result = array_set_length(obj, desc, context);
 
-            array_set_length(obj, desc, context)
+            // A write to `length` must always run ArraySetLength (value validation, deletion of the
+            // elements at and above the new length): never let an inline cache store into the slot directly.
+            context.slot().attributes |= crate::object::shape::slot::SlotAttributes::NOT_CACHEABLE;
+
+            result
         }
         // 3. Else if P is an array index, then
         PropertyKey::Index(index) => {
